@@ -72,6 +72,39 @@ CHECKS.update({
 })
 CHECKS["C18"]["technique"] += "; compiled generators with panicking atoms vs reference rendering"
 
+C_NOTE = ("Trusted: the hand-written Coq models of the rewriter (Rewrite.v) and of the source/target semantics (Sem.v), tied to /repo on every run by "
+          "(a) the structural correspondence (abstract tree of the real rewriter's unoptimised output = Rewrite.rewrite, on every generated program) and "
+          "(b) the behavioural correspondence (Sem.v source semantics = run of the reference rendering on refco; Sem.v target semantics of the model's output = "
+          "run of the really compiled program on the real seq runtime); the program generator and its two renderings, refco, the event runtime tr, the VerifCompile hook. "
+          "The big-step reading of the seq combinators in Sem.v is validated against the real runtime by (b), not proved equal to the machine of Props_C08.v.")
+CHECKS["C01"] = dict(
+    category="proof",
+    technique="Coq proof (partial): forward simulation of the rewriter model (pass0, pass2, pass3) from the source coroutine semantics to the strict target semantics, "
+              "for atoms / Yield / blocks / if chains / switch (tag and tag-less) / for loops / break / continue / return, every user-code denotation and every consumer; "
+              "structural + behavioural correspondence model vs real compiler on every run; differential translation validation of compiled vs reference rendering",
+    text="C01_compiled_equals_source_partial (Props_C01.v): for every body satisfying the computable side conditions c01_hyps (inside the proved fragment, nesting "
+         "depth below the model's termination-checker fuel, model output legal Go in the sense of Strict.v) the model's output, run as Start(Delay(...)), has the outcome of the "
+         "source coroutine (values, worlds at delivery, stop point, final world, panic). The side conditions are evaluated on every generated program (evidence: "
+         "theorem_side_conditions). Outside the fragment (yielding init/post, break out of a yielding case = finding F2, range, YieldFrom) the check is differential. Known findings F1/F2 are reported as such.",
+    note=C_NOTE, design="§6 C01, §11")
+CHECKS["C02"] = dict(
+    category="proof",
+    technique="Coq proof (partial): corollaries of the compiler theorem for every consumer that stops after j values (same world at every stop point); "
+              "differential translation validation on full event logs (every user-code evaluation interleaved with consumer marks, incl. generator call and advances after exhaustion)",
+    text="C02_same_world_at_every_stop_partial, C02_truncation_partial (Props_C02.v): on the fragment of C01, for every stop point the compiled generator has run exactly the user "
+         "code the source coroutine has run. That nothing runs before the first MoveNext and the laziness of the runtime itself are covered by the runtime theorems (C08/C09) and by the "
+         "differential check on interleaved event logs (prefix closure covers every truncation point).",
+    note=C_NOTE, design="§6 C02, §11")
+CHECKS["C07"] = dict(
+    category="proof",
+    technique="Coq proof (partial): the optimiser model (Opt.v: bottom-up Delay elision and eta reduction) preserves the outcome of Start(e) for every generated expression "
+              "satisfying the computable condition opt_ok, both readings of callbacks, every consumer; structural correspondence optimiser model vs the real optimised output on every run; "
+              "two-stage differential (optimised vs unoptimised stage vs source) on random programs and an optimiser-sensitive corpus",
+    text="C07_optimiser_preserves_partial, C07_source_to_optimised_partial (Props_C07.v). Hypotheses: a literal evaluates to its value without effect; a loop condition with a stable "
+         "callee behaves like the function value called later (the stableCallee decision of the real optimiser is not modelled). Eta reduction of ordinary user closures and import "
+         "clean-up are covered by the differential check: both stages are built and driven with the same tapes, logs must be identical, the optimised stage must build.",
+    note=C_NOTE + " For C07 additionally: the optimiser model Opt.v, tied to the real optimiser by lib/optstruct.py.", design="§6 C07, §11")
+
 NOT_YET = {}
 
 
